@@ -431,3 +431,83 @@ Lemma on_term_mouse_F : forall f t,
    end) ;;;
   (if v_events_asis fixed then ret tt else log_op (OFrameUnref root) ;;; unref fixed f root)).
 Proof. reflexivity. Qed.
+
+Lemma unref_F : forall f w,
+  unref fixed (S f) w =
+  (c <- getw w ;;
+  if w_ref c <? 1 then fail Abort
+  else
+    setw w (set_ref c (w_ref c - 1)) ;;;
+    if w_ref c - 1 =? 0 then (if v_dh fixed && w_dying c then ret tt else destroy fixed f w) else ret tt      (* && !win->is_destroying *)).
+Proof. reflexivity. Qed.
+
+Lemma destroy_F : forall f w,
+  destroy fixed (S f) w =
+  ((* win->is_destroying = true; tickit_bindings_unbind_and_destroy: the DESTROY handlers, last bound first -- the
+     harness's own DESTROY binding, which records the order, was bound first and runs last *)
+  (if v_dh fixed then upd w (fun c => set_dying c true) ;;; destroy_handlers fixed f w else ret tt) ;;;
+  log_destroy w ;;;
+  if v_destroy_asis fixed then
+    cw <- getw w ;;
+    destroy_loop_asis fixed f (w_first cw) ;;;
+    cw <- getw w ;;
+    (match w_parent cw with None => ret tt | Some _ => purge fixed f w end) ;;;
+    cw <- getw w ;;
+    (if w_closed cw then ret tt else close fixed f w) ;;;
+    root_cleanup fixed f w ;;;
+    freew w
+  else
+    cw <- getw w ;;
+    (if w_closed cw then ret tt else close fixed f w) ;;;
+    root_cleanup fixed f w ;;;                  (* repaired code: the root's queue goes before the children *)
+    destroy_loop fixed f w ;;;
+    freew w).
+Proof. reflexivity. Qed.
+
+Lemma destroy_handlers_F : forall f w,
+  destroy_handlers fixed (S f) w =
+  (c <- getw w ;;
+  match rev (w_hs c) with
+  | [] => ret tt
+  | hd :: before =>
+    setw w (set_hs c (rev before)) ;;;
+    (if h_is HDestroy hd then run_dops fixed f w (h_actions hd) else ret tt) ;;;
+    destroy_handlers fixed f w
+  end).
+Proof. reflexivity. Qed.
+
+Lemma run_dops_F : forall f w l,
+  run_dops fixed (S f) w l =
+  (match l with
+  | [] => ret tt
+  | o :: l' => (if own_benign w o then quiet (run_op fixed f o) else run_op fixed f o) ;;; run_dops fixed f w l'
+  end).
+Proof. reflexivity. Qed.
+
+Lemma destroy_loop_F : forall f w,
+  destroy_loop fixed (S f) w =
+  (cw <- getw w ;;
+  match w_first cw with
+  | None => ret tt
+  | Some child =>
+    cc <- getw child ;;
+    setw w (set_first cw (w_next cc)) ;;;
+    upd child (fun c => set_parent c None) ;;;
+    upd child (fun c => set_next c None) ;;;
+    (if v_dh fixed && w_dying cc then ret tt else unref fixed f child) ;;;
+    destroy_loop fixed f w
+  end).
+Proof. reflexivity. Qed.
+
+Lemma destroy_loop_asis_F : forall f child,
+  destroy_loop_asis fixed (S f) child =
+  (match child with
+  | None => ret tt
+  | Some a =>
+    ca <- getw a ;;
+    let next := w_next ca in
+    unref fixed f a ;;;
+    upd a (fun c => set_parent c None) ;;;
+    destroy_loop_asis fixed f next
+  end).
+Proof. reflexivity. Qed.
